@@ -14,7 +14,7 @@ import (
 
 var pureIntrinsics = map[string]bool{
 	"unicode.IsLetter": true, "unicode.IsMark": true,
-	"math.Abs": true, "math.Sqrt": true, "math.Round": true, "math.Floor": true, "math.Ceil": true, "math.Trunc": true, "math.IsNaN": true,
+	"math.Abs": true, "math.Sqrt": true, "math.Round": true, "math.Floor": true, "math.Ceil": true, "math.Trunc": true, "math.IsNaN": true, "math.Signbit": true,
 }
 
 func (e *Engine) isPure(fn *ssa.Function) bool {
